@@ -301,6 +301,15 @@ def run(ctx):
         osrc = "{ let p = %s; let q = %s; return %s }" % (sel("a", "a", "b"), sel("b", "b", "a"), " + ".join(reads))
         docs.append((cxx.document([("tgt", "i", osrc)]), [("binding", "i", osrc, "int")], [("root", "VObj")] + cxx.OBJECT_DECLS))
         ctx.dist("observer-array-shapes")
+    # element writes whose INDEX is computed at run time and read nowhere else; results that are discarded; locals used once
+    for hsrc in ('{ let names = ["-", "-"]; names[a.i & 1] = a.s; b.s = names[0] + names[1] }', '{ let l = [1, 2]; l[a.b ? 1 : 0] = a.i; b.i = l[0] + l[1] }',
+                 '{ let k = a.i & 1; let l = ["x", "y"]; l[k] = a.s; b.s = l[0] }', '{ let l = [1, 2, 3]; l[a.compute(1) & 1] = 5; l[0] = a.i; b.i = l[1] }',
+                 '{ a.compute(1); a.label(); a.flag(); let unused = a.i + 1; b.i = 2 }', '{ let l = ["a"]; l[0] = a.s; }'):
+        docs.append((cxx.document([], [("a", "onFired", hsrc)]), [("handler", "onFired", hsrc, None)], [("root", "VObj")] + cxx.OBJECT_DECLS))
+        ctx.dist("element-writes-and-discarded-results")
+    for bsrc, bt in (('{ let l = ["x", "y"]; l[a.b ? 1 : 0] = a.s; return l[0] }', "s"), ('{ let l = [1, 2]; l[a.i & 1] = a.i; return l[0] + l[1] }', "i")):
+        docs.append((cxx.document([("tgt", bt, bsrc)]), [("binding", bt, bsrc, None)], [("root", "VObj")] + cxx.OBJECT_DECLS))
+        ctx.dist("element-writes-and-discarded-results")
     # console.* takes operands of any type: whatever is accepted has to be something C++ can send to the stream (an empty list literal has no type: F27, repaired)
     for k, arg in enumerate(["[]", "null", "[], null", "[1, 2]", "a", "a.names", "VObj.ModeA", "\"s\"", "1.5", "a.next", "[a.s, \"x\"]", "a.nums", "true ? [] : []", "[[]]"]):
         hsrc = "console.%s(%s)" % (["log", "warn", "info", "debug", "error"][k % 5], arg)
@@ -329,6 +338,10 @@ def run(ctx):
     seen_known = {}
     for (k, d, doc, chunk, header), (rc, err) in zip(jobs, results):
         rep = {"qml": doc, "impl_output": header}
+        und = cxx.undeclared_temporaries(header)
+        if und:
+            ctx.violation("the support header uses the temporary %s in %s() without declaring it" % (und[0][1], und[0][0]), dict(rep, theorem_or_correspondence="every temporary is declared / header scan"))
+            continue
         oob = observer_indices_out_of_bounds(header)
         if oob:
             ctx.violation("the support header uses %s[%d], the array is declared with %d elements" % oob, dict(rep, theorem_or_correspondence="observer arrays hold every index used / header scan"))
